@@ -232,6 +232,11 @@ func famC03(g *Gen, o *Out, n int, thorough bool) {
 			r := []cid.Cid{bs[0].C}
 			roots = rootsArg(r)
 			io_.sid = c%2 == 0
+			if !io_.sid {
+				// a CID-size limit between the longest hashed CID (68 bytes) and the long identity CID (84):
+				// with identity CIDs left out of the index, the limit is not their business
+				io_.mcs = 70
+			}
 			if c < 2 {
 				ver, dp, arch = 1, 0, writeAll(r, bs, true)
 			} else {
